@@ -2,6 +2,7 @@ import Sismic.Json
 import Sismic.Model.Clock
 import Sismic.Model.Bdd
 import Sismic.Model.Runner
+import Sismic.Proofs.WFCheck
 /-!
 # Sismic.Cases — interpretation of protocol cases by the model (dispatch on `kind`)
 -/
@@ -58,7 +59,7 @@ def interpOp (s : IS) (op : Json) : P (IS × Json) := do
       | _ => throw "bad ctx")
     let (slot, ok) := mkSlot ch (← ign.getBool?) ctx (← t0.getInt?)
     let w := { s.world with slots := s.world.slots.push slot }
-    return ({ s with world := w }, obs w (Json.mkObj [("ok", .bool ok)]))
+    return ({ s with world := w }, obs w (Json.mkObj [("ok", .bool ok), ("wf", .bool (wfB ch))]))
   | [.str "queue", i, e] =>
     let i ← i.getNat?
     let e ← event e
